@@ -916,6 +916,12 @@ impl<'a> LiveEvents<'a> {
     pub(crate) fn seen_doc_end(&self) -> bool {
         self.seen_doc_end
     }
+    /// True once the reader has failed or the input cap has been reached, whether or not the
+    /// failure has been reported yet (the parser may have seen it as a premature end of input
+    /// and reported a syntax error first).
+    pub(crate) fn source_failed(&self) -> bool {
+        self.io_failed.get() || self.error.borrow().is_some()
+    }
     /// Number of events handed out so far. The multi-document loops use it to notice a target
     /// whose `Deserialize` impl returned without reading anything: the document is then still
     /// in front of them and has to be stepped over, or they would meet it again for ever.
